@@ -98,6 +98,33 @@ def run(seed):
         step('swap-pivot%d.%d' % (n, j), lambda: linalg.matrix_pivot(A, sign=True))
     for kk in range(12):
         step('binom%d' % kk, lambda: [linalg.binomial_coefficient(kk, i) for i in range(kk + 2)])
+    # (round 10) a request in single precision first, the equal request in doubles afterwards: what is memoised for the first must not be
+    # served to the second in single precision (coefficients 1/2, 1/3, 1/6, 2/3, ... are not exact in single precision)
+    try:
+        import numpy as np
+    except Exception:
+        np = None
+    if np is not None:
+        from geomdl import BSpline
+        for j, (kv, u) in enumerate([([0, 0, 0, 0, 2, 3, 6, 6, 6, 6], 1.0), ([0, 0, 0, 1, 3, 4, 7, 7, 7], 2.0),
+                                     ([0.0, 0.0, 0.0, 0.0, 0.375, 0.75, 1.0, 1.0, 1.0, 1.0], 0.25)]):
+            deg = 3 if len(kv) == 10 else 2
+            pts = [[rng.uniform(-5, 5) for _ in range(3)] for _ in range(len(kv) - deg - 1)]
+
+            def mk():
+                c = BSpline.Curve(normalize_kv=False)
+                c.degree = deg
+                c.ctrlpts = [list(p_) for p_ in pts]
+                c.knotvector = [float(k_) for k_ in kv]
+                return c
+
+            def f32_then_double():
+                a_ = mk()
+                operations.insert_knot(a_, [np.float32(u)], [1])
+                b_ = mk()
+                operations.insert_knot(b_, [u], [1])
+                return [[[float(x_) for x_ in p_] for p_ in a_.ctrlpts], [list(p_) for p_ in b_.ctrlpts]]
+            step('f32-then-double%d' % j, f32_then_double)
     P = [[rng.uniform(-5, 5) for _ in range(3)] for _ in range(5)]
     step('elev', lambda: helpers.degree_elevation(4, P, num=3))
     return out
